@@ -566,3 +566,65 @@ Module C07Example.
                 (mkRO EncNone SigEmpty AES256 611 0 false None None None false 1 false false inner) = inl e.
   Proof. eexists. vm_compute. reflexivity. Qed.
 End C07Example.
+
+(* ---- with JAR disabled and no object the JAR-aware handler answers exactly like Authorize.init_auth ---- *)
+Section Plain.
+Local Transparent validate_params validate_params_x validate_in_out validate_in_out_x par_verdict.
+
+Lemma validate_params_x_plain cfg p c : validate_params_x cfg p c None false = validate_params cfg p c.
+Proof.
+  unfold validate_params_x. rewrite validate_optionals_x_plain. unfold validate_params.
+  destruct (is_empty (p_redirect p)); auto.
+  destruct (validate_optionals cfg p c); reflexivity.
+Qed.
+
+Lemma validate_in_out_x_plain cfg i o c : validate_in_out_x cfg i o c None false = validate_in_out cfg i o c.
+Proof.
+  unfold validate_in_out_x. rewrite validate_optionals_x_plain. unfold validate_in_out.
+  destruct (negb (is_empty (p_redirect o)) && negb (redirect_allowed c (p_redirect o)))%bool; auto.
+  destruct (validate_params cfg (merge_params i o) c); auto.
+  destruct (validate_optionals cfg o c); reflexivity.
+Qed.
+
+Lemma init_auth_jar_plain w jx n now r st :
+  cf_jar_enabled (w_cfg w) = false ->
+  run_seq (init_auth_jar w jx n now (mkJAReq r JNone)) st = run_seq (init_auth w n now r) st.
+Proof.
+  intros Hen. unfold init_auth_jar, init_auth. cbn [jq_req jq_jar].
+  destruct (is_nil (ar_client r)); auto.
+  rewrite !run_seq_bind. destruct (get_client_spec w (ar_client r) st) as [oc [R _]]. rewrite R.
+  destruct oc as [c|]; auto.
+  destruct (negb (has_grant GAuthorizationCode (c_grants c) || has_grant GImplicit (c_grants c))); auto.
+  unfold auth_jar_client. cbn [jq_req jq_jar].
+  destruct (should_use_par (w_cfg w) (ar_params r) c).
+  - destruct (is_nil (p_request_uri (ar_params r))); auto.
+    simpl. destruct (find (fun s => ideq (a_par s) (p_request_uri (ar_params r))) (st_asess st)) as [s|]; simpl; auto.
+    unfold par_verdict, both_outside. cbn [has_obj is_ref]. rewrite andb_false_r. rewrite validate_in_out_x_plain.
+    reflexivity.
+  - unfold should_use_jar. rewrite Hen. cbn [andb].
+    unfold both_outside, ref_check_in. cbn [has_obj]. rewrite andb_false_r. rewrite validate_params_x_plain. reflexivity.
+Qed.
+End Plain.
+
+Lemma push_auth_jar_plain w jx n now r st :
+  cf_jar_enabled (w_cfg w) = false ->
+  run_seq (push_auth_jar w jx n now r None) st = run_seq (push_auth w n now r) st.
+Proof.
+  intros Hen. unfold push_auth_jar, push_auth.
+  destruct (negb (cf_par_enabled (w_cfg w))); auto.
+  rewrite !run_seq_bind. destruct (authenticated_spec w (pr_cred r) st) as [oc [R _]]. rewrite R.
+  destruct oc as [c|]; auto.
+  unfold should_use_jar_par. rewrite Hen. cbn [andb]. reflexivity.
+Qed.
+
+Lemma init_back_auth_jar_plain w jx n now r st :
+  cf_ciba_jar_enabled (w_cfg w) = false ->
+  run_seq (init_back_auth_jar w jx n now r None) st = run_seq (init_back_auth w n now r) st.
+Proof.
+  intros Hen. unfold init_back_auth_jar, init_back_auth.
+  destruct (negb (cf_ciba_enabled (w_cfg w))); auto.
+  rewrite !run_seq_bind. destruct (authenticated_spec w (br_cred r) st) as [oc [R _]]. rewrite R.
+  destruct oc as [c|]; auto.
+  unfold should_use_jar_ciba. rewrite Hen. cbn [andb].
+  unfold back_tail. rewrite validate_optionals_x_plain. reflexivity.
+Qed.
